@@ -177,10 +177,14 @@ impl EntityQuery {
         Ok(())
     }
 
+    ///
+    /// the name of the entity used as a table alias in the SQL query.
+    /// It is quoted: an identifier of the query language can be a keyword of the database engine or start with a digit
+    ///
     pub fn sql_aliased_name(&self) -> String{
-        self.alias.clone()
+        format!("\"{}\"", self.alias.clone()
             .unwrap_or(self.name.clone())
-            .replace(".", "$")
+            .replace(".", "$"))
     }
 
 
